@@ -646,6 +646,9 @@ func buildSkeletons(c *Ctx, rule string, ts *tmplSet, withSSA bool) *skeletonSet
 		return set
 	}
 	for _, p := range pkgs {
+		if os.Getenv("EMCHECK_NO_NORMALIZE") == "" && len(p.Errors) == 0 && !p.IllTyped {
+			normalizePackage(p)
+		}
 		for _, sk := range set.sk {
 			if strings.HasSuffix(p.PkgPath, "/"+sk.w.name) {
 				sk.pkg = p
